@@ -31,7 +31,9 @@ def _self_attr(e: ast.AST) -> str | None:
     return None
 
 
-def _empty_tests(slot: str, key: str | None) -> set[tuple[str, bool]]:
+def _empty_tests(slot: str, key: str | None, alias: str | None = None) -> set[tuple[str, bool]]:
+    if key is not None and alias is not None:
+        return {(f'{key} not in {alias}', True), (f'{key} in {alias}', False), (f'{key} not in self.{slot}', True), (f'{key} in self.{slot}', False)}
     if key is None:
         return {(f'self.{slot} is None', True), (f'self.{slot} is not None', False), (f"not hasattr(self, '{slot}')", True),
                 (f"hasattr(self, '{slot}')", False)}
@@ -46,46 +48,78 @@ def _atoms(p: Program, f: Func, n: ast.AST) -> list[tuple[str, bool, ast.expr]]:
     return out
 
 
+def _is_reset(v: ast.expr) -> bool:
+    """None, an empty container, or a tuple of empty containers and generation stamps (plain field reads)."""
+    if isinstance(v, ast.Constant) and v.value is None:
+        return True
+    if isinstance(v, (ast.Dict, ast.List, ast.Set)) and not (v.keys if isinstance(v, ast.Dict) else v.elts):
+        return True
+    if isinstance(v, ast.Call) and norm(v.func) in ('dict', 'list', 'set') and not v.args and not v.keywords:
+        return True
+    if isinstance(v, ast.Tuple):
+        return all(_is_reset(x) or isinstance(x, ast.Constant) or (isinstance(x, ast.Attribute) and _self_attr(x) is not None)
+                   or (isinstance(x, ast.UnaryOp) and isinstance(x.operand, ast.Constant)) for x in v.elts) and any(_is_reset(x) for x in v.elts)
+    return False
+
+
+def _root_self_attr(e: ast.expr) -> str | None:
+    while isinstance(e, (ast.Subscript, ast.Attribute)):
+        a = _self_attr(e)
+        if a is not None:
+            return a
+        e = e.value
+    return None
+
+
 def memo_sites(p: Program, f: Func) -> list[dict]:
-    sites: dict[tuple, list] = {}
     assigns: dict[str, list] = {}
     for n in p.nodes(f):
         tgs = n.targets if isinstance(n, ast.Assign) else ([n.target] if isinstance(n, (ast.AugAssign, ast.AnnAssign)) else [])
         for t in tgs:
             a = _self_attr(t)
             if a is not None:
-                assigns.setdefault(a, []).append((n, None))
+                if isinstance(n, ast.Assign) and _is_reset(n.value):
+                    continue      # clearing the cache (possibly stamped with a generation) is not a second producer
+                assigns.setdefault(a, []).append((n, None, None))
             elif isinstance(t, ast.Subscript) and _self_attr(t.value) is not None:
-                assigns.setdefault(_self_attr(t.value), []).append((n, norm(t.slice)))
+                assigns.setdefault(_self_attr(t.value), []).append((n, norm(t.slice), None))
+            elif isinstance(t, ast.Subscript) and isinstance(t.value, ast.Name):
+                # a local alias of a container held by self: resolved = self._cache[1]; resolved[k] = ...
+                ds = p.local_defs(f, t.value.id)
+                roots = {_root_self_attr(d) for d in ds}
+                if len(ds) == 1 and None not in roots:
+                    assigns.setdefault(roots.pop(), []).append((n, norm(t.slice), t.value.id))
     out = []
     for slot, lst in assigns.items():
         memo = []
-        for n, key in lst:
+        for n, key, alias in lst:
             if not isinstance(n, ast.Assign):
                 memo = []
                 break
             ats = _atoms(p, f, n)
-            hit = [a for a in ats if (a[0], a[1]) in _empty_tests(slot, key)]
+            tests = _empty_tests(slot, key, alias)
+            hit = [a for a in ats if (a[0], a[1]) in tests]
             # a disjunctive emptiness test (`self.X is None or self._k != arg`) is found through the whole test text
             if not hit:
                 for g in flow.guards(p, f, n):
                     if g.polarity and isinstance(g.test, ast.BoolOp) and isinstance(g.test.op, ast.Or) and \
-                            any((norm(v), True) in _empty_tests(slot, key) for v in g.test.values):
+                            any((norm(v), True) in tests for v in g.test.values):
                         hit = [(norm(g.test), True, g.test)]
             if not hit:
                 memo = []
                 break
-            memo.append((n, key, hit[0][2]))
+            memo.append((n, key, hit[0][2], alias))
         if not memo:
             continue
         # the cached value is read in this method (otherwise it is plain lazy construction of a sub-object)
         reads = [x for x in p.nodes(f) if isinstance(x, ast.Attribute) and isinstance(x.ctx, ast.Load) and _self_attr(x) == slot]
+        reads += [x for _n, _k, _t, al in memo if al for x in p.nodes(f) if isinstance(x, ast.Name) and x.id == al and isinstance(x.ctx, ast.Load)]
         if not reads:
             continue
-        for n, key, test in memo:
+        for n, key, test, alias in memo:
             if isinstance(n.value, ast.Constant):
                 continue
-            out.append({'func': f, 'slot': slot, 'key': key, 'node': n, 'test': test})
+            out.append({'func': f, 'slot': slot, 'key': key, 'node': n, 'test': test, 'alias': alias})
     return out
 
 
@@ -141,6 +175,21 @@ def _writers(p: Program, cls: str, fields: set[str]) -> list[tuple[Func, ast.AST
                         a = _self_attr(x)
                         if a is not None and a in fields:
                             out.append((m, n, a))
+    return out
+
+
+def _external_writers(p: Program, cls: str, fields: set[str]) -> list[tuple[Func, ast.AST, str, str]]:
+    """Stores `<obj>.<field> = ...` from outside the class hierarchy (obj is not `self`): (function, node, field, obj text)."""
+    mine = {c.fullname for c in p.mro(cls) + p.subclasses(cls)}
+    out = []
+    for g in p.functions():
+        if g.cls in mine:
+            continue
+        for n in p.nodes(g):
+            tgs = n.targets if isinstance(n, ast.Assign) else ([n.target] if isinstance(n, (ast.AugAssign, ast.AnnAssign)) else [])
+            for t in tgs:
+                if isinstance(t, ast.Attribute) and t.attr in fields and t.attr.startswith('_') and not (isinstance(t.value, ast.Name) and t.value.id == 'self'):
+                    out.append((g, n, t.attr, norm(t.value)))
     return out
 
 
@@ -214,6 +263,7 @@ def selfcheck() -> None:
 
 def rule_memo(ctx: Ctx) -> None:
     p = ctx.prog
+    ctx.do(rule_dirty)
     ctx.rule('MEMO-KEY', 'a lazily cached value derived from a per-call argument is keyed by that argument', floor=0)
     ctx.rule('MEMO-INVAL', 'a lazily cached value is cleared wherever a field it is derived from is assigned', floor=0)
     selfcheck()
@@ -238,6 +288,14 @@ def rule_memo(ctx: Ctx) -> None:
             watched: set[str] = set()
             for fl in fields:
                 watched |= _backing(p, f.cls, fl)
+            # generation stamps: fields compared in the guard of a reset of the cache in this method key the cache
+            for rn in p.nodes(f):
+                if isinstance(rn, ast.Assign) and any(_self_attr(t) == slot for t in rn.targets) and _is_reset(rn.value):
+                    for g_ in flow.guards(p, f, rn):
+                        for x in ast.walk(g_.test):
+                            a_ = _self_attr(x)
+                            if a_ is not None and a_ != slot:
+                                watched -= _backing(p, f.cls, a_)
             # fields written through a property setter
             alias_of = {w: w for w in watched}
             for c in p.mro(f.cls) + p.subclasses(f.cls):
@@ -247,6 +305,13 @@ def rule_memo(ctx: Ctx) -> None:
             by_func: dict[str, list] = {}
             for m, n, a in _writers(p, f.cls, set(alias_of)):
                 by_func.setdefault(m.qualname, []).append((m, n, a))
+            for g, n, a, obj in _external_writers(p, f.cls, watched):
+                cl = [x for x in p.nodes(g) if isinstance(x, ast.Assign) and any(isinstance(t, ast.Attribute) and t.attr == slot and norm(t.value) == obj for t in x.targets)]
+                wg = {(x[0], x[1]) for x in _atoms(p, g, n)}
+                ok = any({(x[0], x[1]) for x in _atoms(p, g, c_)} <= wg for c_ in cl)
+                ctx.check(ok, 'MEMO-INVAL', g, f'{g.short} assigns {obj}.{a} and clears {obj}.{slot}', f'self.{slot} vs {g.short}:{a}',
+                          f'{g.short} assigns {obj}.{a} directly, which the cached self.{slot} ({f.short}) is derived from, without clearing {obj}.{slot}: '
+                          f'{f.name} keeps returning the value computed from the old {a}', n)
             for q, ws in sorted(by_func.items()):
                 m = ws[0][0]
                 if m is f and all(_self_attr(t) == slot for _m, n, _a in ws for t in getattr(n, 'targets', [])):
@@ -263,3 +328,89 @@ def rule_memo(ctx: Ctx) -> None:
                               f'later calls of {f.name} keep using the value computed from the old {a}', n)
     ctx.ok('MEMO-KEY', 'kfac', f'{n_funcs} methods scanned, {n_sites} lazily cached value(s); built-in positive example found', None)
     ctx.ok('MEMO-INVAL', 'kfac', f'{n_funcs} methods scanned, {n_sites} lazily cached value(s)', None)
+
+
+def _flag_fields(p: Program, cls: str) -> set[str]:
+    """Fields of the hierarchy that only ever hold True / False."""
+    vals: dict[str, set[str]] = {}
+    for c in p.mro(cls) + p.subclasses(cls):
+        for m in c.methods.values():
+            for n in p.nodes(m):
+                if isinstance(n, ast.Assign):
+                    for t in n.targets:
+                        a = _self_attr(t)
+                        if a is not None:
+                            vals.setdefault(a, set()).add(norm(n.value) if isinstance(n.value, ast.Constant) else '?')
+                elif isinstance(n, ast.AugAssign) and _self_attr(n.target):
+                    vals.setdefault(_self_attr(n.target), set()).add('?')
+    return {k for k, v in vals.items() if v and v <= {'True', 'False'} and 'True' in v and 'False' in v}
+
+
+def rule_dirty(ctx: Ctx) -> None:
+    """Dirty-flag form of the same obligation: `if not self.F ...: return` skips a recomputation; everything the
+    skipped part reads must raise the flag when it changes, and arguments it reads must be part of the test."""
+    p = ctx.prog
+    n_skips = 0
+    for f in p.functions():
+        if f.cls is None or f.parent is not None or f.name == '__init__':
+            continue
+        flags = None
+        for i, st in enumerate(f.body):
+            if not (isinstance(st, ast.If) and not st.orelse and len(st.body) == 1 and isinstance(st.body[0], ast.Return)
+                    and (st.body[0].value is None or norm(st.body[0].value) == 'None')):
+                continue
+            if flags is None:
+                flags = _flag_fields(p, f.cls)
+            used = [a for a, pol in conjuncts(st.test, True) if isinstance(a, ast.Attribute) and _self_attr(a) in flags and not pol]
+            if not used:
+                continue
+            F = _self_attr(used[0])
+            n_skips += 1
+            rest = f.body[i + 1:]
+            params: set[str] = set()
+            fields: set[str] = set()
+            written_here: set[str] = set()
+            for r in rest:
+                for n in ast.walk(r):
+                    if isinstance(n, ast.Name) and isinstance(n.ctx, ast.Load) and n.id in f.params and n.id != 'self':
+                        params.add(n.id)
+                    a = _self_attr(n)
+                    if a is not None:
+                        if isinstance(n.ctx, ast.Load):  # type: ignore[attr-defined]
+                            fields.add(a)
+                        else:
+                            written_here.add(a)
+            test_names = {x.id for x in ast.walk(st.test) if isinstance(x, ast.Name)}
+            for prm in sorted(params - test_names):
+                ctx.violate('MEMO-KEY', f, f'skip in {f.name} ignores {prm}',
+                            f'{f.short}: the early return under `{norm(st.test)}` skips a computation that depends on the argument {prm!r}: '
+                            f'a call with a different {prm} keeps the result computed for an earlier value', st)
+            watched: set[str] = set()
+            for fl in fields - {F} - written_here:
+                watched |= _backing(p, f.cls, fl)
+            watched -= {F}
+            names = set(watched)
+            for c in p.mro(f.cls) + p.subclasses(f.cls):
+                for nm in c.setters:
+                    if _setter_fields(p, f.cls, nm) & watched:
+                        names.add(nm)
+            by_func: dict[str, list] = {}
+            for m, n, a in _writers(p, f.cls, names):
+                if m is f or any(m is s_ for c in p.mro(f.cls) + p.subclasses(f.cls) for s_ in c.setters.values()):
+                    continue
+                by_func.setdefault(m.qualname, []).append((m, n, a))
+            for _q, ws in sorted(by_func.items()):
+                m = ws[0][0]
+                raises = [x for x in p.nodes(m) if isinstance(x, ast.Assign) and any(_self_attr(t) == F for t in x.targets) and norm(x.value) == 'True']
+                for _m, n, a in ws:
+                    v = getattr(n, 'value', None)
+                    # a communication on the slot itself continues the update that raised the flag
+                    if isinstance(v, ast.Call) and any(_self_attr(x) in _backing(p, f.cls, a) | {a} for arg in list(v.args) + [k.value for k in v.keywords] for x in ast.walk(arg)) \
+                            and any(k in norm(v.func).lower() for k in ('reduce', 'broadcast', 'gather')):
+                        continue
+                    wg = {(x[0], x[1]) for x in _atoms(p, m, n)}
+                    ok = any({(x[0], x[1]) for x in _atoms(p, m, r_)} <= wg for r_ in raises)
+                    ctx.check(ok, 'MEMO-INVAL', m, f'{m.short} assigns {a} and raises self.{F}', f'self.{F} vs {m.short}:{a}',
+                              f'{m.short} assigns self.{a}, which the computation skipped under `{norm(st.test)}` in {f.short} reads, without setting self.{F} = True: '
+                              f'the stale result is kept', n)
+    ctx.ok('MEMO-INVAL', 'kfac', f'{n_skips} flag-guarded skip(s) of a recomputation', None)
